@@ -832,26 +832,41 @@ def n_outputs(m, n):
     return math.comb(m + n - 1, n)
 
 
+def row_max(d, nmax):
+    """largest number of entries of a detection row of detector d for up to nmax photons"""
+    if det_is_pnr(d) or d == "thr":
+        return 1
+    return max(len(kernel(d, k)) for k in range(nmax + 1))
+
+
 def apriori_trim_bound(cfg, members, eff_filter, min_p):
-    """Lean-independent upper bound on the probability mass the two thresholds can remove (used by the direct
-    oracle only): members at or below the threshold, plus threshold/10 per node of every member's product tree"""
+    """Lean-independent a-priori bound of the probability mass the thresholds can remove, from the configured
+    precision and sizes only — the formula PROVED for the model (trimmed_mass_apriori, trimmed_mass_det_apriori):
+        theta * (#members passing the photon filter + #entries of the accumulated list / 10
+                 [+ #entries of the list of detected patterns, when a detector is not PNR])
+    with #entries of the accumulated list <= sum over passing members of prod over groups C(m+n_g-1, n_g)
+    (accumulated_entries_le) and #detected patterns <= #entries * prod over modes (largest detection row)
+    (detected_entries_eq).  -> (bound, theta, weight of the passing members)"""
     H = sum(v for _, v in cfg["heralds"])
     prec = DEFAULT_PREC if cfg["prec"] == "default" else cfg["prec"]
     passing = [mb for mb in members if sum(map(sum, mb["groups"])) >= eff_filter + H]
     max_p = max([mb["w"] for mb in passing] + [0.0])
     theta = max(min_p, max_p * prec)
-    bound = 0.0
+    entries = 0
     for mb in passing:
-        if mb["w"] <= theta * (1 + 1e-9):
-            bound += mb["w"]
-        if mb["w"] > theta * (1 - 1e-9) and len(mb["groups"]) >= 2:
-            sizes = [n_outputs(cfg["m"], sum(g)) for g in mb["groups"]]
-            nodes, prod = sum(sizes), 1
-            for sz in sizes:
-                prod *= sz
-                nodes += prod
-            bound += min(mb["w"], theta / 10 * nodes)
-    return min(1.0, bound), theta
+        prod = 1
+        for g in mb["groups"]:
+            prod *= n_outputs(cfg["m"], sum(g))
+        entries += prod
+    sizes = len(passing) + entries / 10
+    dets = cfg.get("dets")
+    if not dets_all_pnr(dets):
+        nmax = max([sum(map(sum, mb["groups"])) for mb in members] + [0])
+        per_state = 1
+        for d in dets:
+            per_state *= row_max(d, nmax)
+        sizes += entries * per_state
+    return theta * sizes * (1 + 1e-9), theta, sum(mb["w"] for mb in passing)
 
 
 def judge_trim(chk, cfg):
@@ -865,10 +880,13 @@ def judge_trim(chk, cfg):
         return ("violation", "raises-" + real["err"], f"{entry} (precision {cfg['prec']}) raised {real['err']}: {real['msg']}")
     eff = effective_filter(cfg)
     prec = DEFAULT_PREC if cfg["prec"] == "default" else cfg["prec"]
-    req = {"op": "c04trim", "m": cfg["m"], "U": core.mat(real["U"].tolist()),
+    det = not dets_all_pnr(cfg.get("dets"))        # mask-free path through simulate_detectors (its own threshold)
+    req = {"op": "c04trimdet" if det else "c04trim", "m": cfg["m"], "U": core.mat(real["U"].tolist()),
            "members": [{"w": core.rat(mb["w"]), "groups": mb["groups"]} for mb in real["members"]],
            "cfg": {"heralds": cfg["heralds"], "ps": cfg["psj"], "filter": eff, "keepHeralds": cfg["keep"], "pnr": True},
            "prec": core.rat(prec), "minp": core.rat(real["min_p"])}
+    if det:
+        req["dets"] = lean_dets(cfg["dets"], max([sum(map(sum, mb["groups"])) for mb in real["members"]] + [0]))
     rep = chk.lean.ask(req)
     if "err" in rep:
         return ("broken", "lean-rejects", f"driver rejected the request: {rep['err']}")
@@ -883,40 +901,71 @@ def judge_trim(chk, cfg):
     t_mass, t_ret = float(Fraction(rep["trimmedMass"])), float(Fraction(rep["trimmedRetained"]))
     gap = float(Fraction(rep["gap"]))
     chk.last_retained = ret_trim
-    chk.branch("trim-case")
+    pre = "trim-det-" if det else "trim-"
+    chk.branch(pre + "case")
     if cfg["prec"] == "default":
-        chk.branch("trim-default-precision")
+        chk.branch(pre + "default-precision")
     if cfg["kind"] == "proc":
-        chk.branch("trim-processor")
+        chk.branch(pre + "processor")
     if rep["droppedMembers"] > 0:
-        chk.branch("trim-member-dropped")
+        chk.branch(pre + "member-dropped")
     if rep["prunedEntries"] > 0:
-        chk.branch("trim-tensor-pruned")
-        if t_mass > 0 and cfg["heralds"]:
+        chk.branch(pre + "tensor-pruned")
+        if not det and t_mass > 0 and cfg["heralds"]:
             chk.branch("trim-tensor-pruned-under-mask")
+    if det:
+        if rep["detDropped"] > 0:
+            chk.branch("trim-det-stage-bites")
+            if cfg["prec"] == "default":
+                chk.branch("trim-det-stage-bites-at-default-precision")
+        if all(d == "thr" for d in cfg["dets"]):
+            chk.branch("trim-det-all-threshold")
+        if abs(float(trimmed["phys"]) - float(spec["phys"])) > 1e-8:
+            chk.branch("trim-det-physical-perf-changes")
     if t_mass > 0 and ret_trim > TINY:
-        chk.branch("trim-bites-with-retained-mass")
+        chk.branch(pre + "bites-with-retained-mass")
     if t_ret > 1e-8 and ret_trim > TINY:
-        chk.branch("trim-changes-the-answer")
+        chk.branch(pre + "changes-the-answer")
         if cfg["prec"] == "default":
-            chk.branch("trim-changes-the-answer-at-default-precision")
-    chk.count("trim_precision", str(cfg["prec"]))
-    chk.count("trimmed_mass_decade", "0" if t_mass <= 0 else str(max(-12, math.floor(math.log10(t_mass)))))
+            chk.branch(pre + "changes-the-answer-at-default-precision")
+    chk.count("trim_det_precision" if det else "trim_precision", str(cfg["prec"]))
+    chk.count("trimmed_mass_decade" + ("_det" if det else ""),
+              "0" if t_mass <= 0 else str(max(-12, math.floor(math.log10(t_mass)))))
     tie = gap < 1e-6
     if tie:
         chk.branch("trim-threshold-tie")
     phys = float(spec["phys"])
+    # the a-priori bound (proved: trimmed_mass_apriori / trimmed_mass_det_apriori) computed here from sizes only must
+    # dominate the exactly computed trimmed mass and the driver's own evaluation of the same formula
+    B, theta, w_pass = apriori_trim_bound(cfg, real["members"], eff, real["min_p"])
+    if t_mass > B + 1e-15 or float(Fraction(rep["aprioriTheta"])) > B + 1e-15:
+        return ("broken", "apriori-bound-model", f"a-priori bound {B!r} computed from the sizes is below the exactly "
+                f"computed trimmed mass {t_mass!r} / the driver's bound {float(Fraction(rep['aprioriTheta']))!r}")
+    chk.branch("trim-apriori-bound-checked")
     bad = []
-    # (1) physical_perf_trim_exact
-    if not core.close(obs["phys"], phys, TOL):
-        bad.append(("physical_perf", f"returned {obs['phys']!r} at precision {cfg['prec']}, exact {phys!r} "
-                                     f"(trimming must not change it)"))
-    # (2) logical_perf_trim_bound / results_trim_bound: within the proved distance of the specification
-    if not tie and not bad and phys > TINY:
-        lo = float(spec["logical"]) - t_ret / phys
-        if not (lo - TOL - 1e-9 * abs(lo) <= obs["logical"] <= float(spec["logical"]) + TOL):
-            bad.append(("logical_perf", f"returned {obs['logical']!r}, exact {float(spec['logical'])!r}, proved "
-                                        f"interval [{lo!r}, exact] (trimmed retained mass {t_ret!r})"))
+    if not det:
+        # (1) physical_perf_trim_exact
+        if not core.close(obs["phys"], phys, TOL):
+            bad.append(("physical_perf", f"returned {obs['phys']!r} at precision {cfg['prec']}, exact {phys!r} "
+                                         f"(trimming must not change it)"))
+        # (2) logical_perf_trim_bound / results_trim_bound: within the proved distance of the specification
+        if not tie and not bad and phys > TINY:
+            lo = float(spec["logical"]) - t_ret / phys
+            if not (lo - TOL - 1e-9 * abs(lo) <= obs["logical"] <= float(spec["logical"]) + TOL):
+                bad.append(("logical_perf", f"returned {obs['logical']!r}, exact {float(spec['logical'])!r}, proved "
+                                            f"interval [{lo!r}, exact] (trimmed retained mass {t_ret!r})"))
+    else:
+        # physical_perf_trim_bound_detectors / logical_perf_trim_bound_detectors
+        t_pass, pass_trim = float(Fraction(rep["trimmedPass"])), float(Fraction(rep["passTrimmed"]))
+        phys_in, in_loss = float(Fraction(rep["physInputs"])), float(Fraction(rep["inputLoss"]))
+        if not tie and abs(obs["phys"] - phys) > t_mass + TOL:
+            bad.append(("physical_perf", f"returned {obs['phys']!r} at precision {cfg['prec']}, exact {phys!r}, proved "
+                                         f"distance {t_mass!r} (total trimmed mass)"))
+        if not tie and not bad and pass_trim > TINY:
+            eps = in_loss / phys_in + t_pass / phys
+            if abs(obs["logical"] - float(spec["logical"])) > eps + TOL:
+                bad.append(("logical_perf", f"returned {obs['logical']!r}, exact {float(spec['logical'])!r}, proved "
+                                            f"distance {eps!r}"))
     if not tie and not bad and ret_trim > TINY:
         eps = t_ret / retained
         for k in set(obs["results"]) | set(spec["results"]):
@@ -931,43 +980,98 @@ def judge_trim(chk, cfg):
         o2 = dict(obs)
         if ret_trim <= TINY:
             tm["results"], o2 = {}, dict(obs, results={})
-        if 0 < phys <= TINY:
+        if 0 < phys <= TINY or (det and float(Fraction(rep["passTrimmed"])) <= TINY):
             tm["logical"], o2 = Fraction(0), dict(o2, logical=0.0, **{"global": None})
         mbad = compare(o2, tm)
     if not bad and not mbad:
         return None
     # failing-input search: the property evaluated directly on the real code (selection-free simulator at
-    # precision 0, conditioned in Python) with a Lean-independent bound on what trimming may remove
+    # precision 0, pushed through the closed-form detector kernels and conditioned in Python) within the a-priori
+    # bound B of what the thresholds can remove — proved for the model, computed here from the sizes only
     try:
         d = chk.real.call("direct_oracle", cfg, eff)
     except Exception as e:  # noqa: BLE001
         return ("broken", "direct-oracle-crash", f"{type(e).__name__}: {e}")
-    B, theta = apriori_trim_bound(cfg, real["members"], eff, real["min_p"])
     what = None
-    if not core.close(obs["phys"], d["phys"], TOL):
+    Rd = d["phys"] * d["logical"]
+    if not det and not core.close(obs["phys"], d["phys"], TOL):
         what = ("physical_perf", f"returned {obs['phys']!r}, directly computed {d['phys']!r}")
-    elif d["phys"] > TINY and not (d["logical"] - B / d["phys"] - TOL <= obs["logical"] <= d["logical"] + TOL):
+    elif det and abs(obs["phys"] - d["phys"]) > B + TOL:
+        what = ("physical_perf", f"returned {obs['phys']!r}, directly computed {d['phys']!r}, at most {B!r} of the "
+                                 f"probability can be trimmed")
+    elif not det and d["phys"] > TINY and not (d["logical"] - B / d["phys"] - TOL <= obs["logical"] <= d["logical"] + TOL):
         what = ("logical_perf", f"returned {obs['logical']!r}, directly computed {d['logical']!r}, at most "
                                 f"{B!r} of the probability can be trimmed")
-    else:
-        Rd = d["phys"] * d["logical"]
-        if Rd > TINY and Rd - B > TINY:
-            for k in set(obs["results"]) | set(d["results"]):
-                x, xh = obs["results"].get(k, 0.0), d["results"].get(k, 0.0)
-                if abs(x - xh) > B / (Rd - B) + TOL:
-                    what = ("results", f"state {list(k)}: returned {x!r}, directly computed {xh!r}, at most {B!r} "
-                                       f"of the probability can be trimmed")
-                    break
+    elif det and d["phys"] - B > TINY and w_pass > TINY and \
+            abs(obs["logical"] - d["logical"]) > B / w_pass + B / d["phys"] + TOL:
+        what = ("logical_perf", f"returned {obs['logical']!r}, directly computed {d['logical']!r}, at most "
+                                f"{B!r} of the probability can be trimmed")
+    elif Rd > TINY and Rd - B > TINY:
+        for k in set(obs["results"]) | set(d["results"]):
+            x, xh = obs["results"].get(k, 0.0), d["results"].get(k, 0.0)
+            if abs(x - xh) > B / Rd + TOL:
+                what = ("results", f"state {list(k)}: returned {x!r}, directly computed {xh!r}, at most {B!r} "
+                                   f"of the probability can be trimmed")
+                break
     if what is not None:
-        return ("violation", "trim-" + what[0],
+        return ("violation", ("trim-det-" if det else "trim-") + what[0],
                 f"{what[0]} at precision {cfg['prec']} (threshold {theta!r}) is further from the conditioned "
                 f"unconditioned distribution than trimming allows (heralds {cfg['heralds']}, filter {cfg['filter']}, "
-                f"post-selection {cfg['ps']}): {what[1]}")
+                f"post-selection {cfg['ps']}, detectors {cfg.get('dets')}): {what[1]}")
     first = (bad or mbad)[0]
     return ("broken", ("trim-bound:" if bad else "trim-model-vs-code:") + first[0],
             (f"outside the interval proved for the trimming model: {first[1]}" if bad else
              f"trimming model (thresholds as coded) and implementation differ: {first[1]}")
-            + f" [precision {cfg['prec']}, threshold {rep['theta']}, gap {gap!r}]")
+            + f" [precision {cfg['prec']}, threshold {rep['theta']}, gap {gap!r}, detectors {cfg.get('dets')}]")
+
+
+def gen_trim_det_config(rng, max_m):
+    """a trimming configuration whose detector layout contains a detector that is not photon-number resolving:
+    the herald mask is off and `simulate_detectors` applies its own per-state threshold"""
+    cfg = gen_trim_config(rng, max_m)
+    m = cfg["m"]
+    hs = sorted(list(h) for h in cfg["heralds"])
+    if cfg["kind"] == "sim":
+        nin = max(sum(len(x) for x in mb["state"]) for mb in cfg["members"])
+    else:
+        nin = sum(cfg["user"]) + sum(v for _, v in hs)
+    dets = None
+    for _ in range(30):
+        dets = gen_dets(rng, m, hs, nin)
+        if dets and not dets_all_pnr(dets):
+            break
+    else:
+        hm = {k: v for k, v in hs}
+        dets = ["pnr" if hm.get(k, 0) > 1 else "thr" for k in range(m)]
+        if dets_all_pnr(dets):
+            dets[0] = "thr" if hm.get(0, 0) <= 1 else ["ppnr", 3, None]
+    cfg["dets"] = dets
+    if cfg["prec"] in ("default", 1e-6, 1e-4) and rng.random() < 0.45:
+        # make the per-state threshold max(theta, theta/(10 p)) of simulate_detectors bite at a small precision: output
+        # states of probability p ~ 4/k^2 ~ 1e-6 (weak coupling) holding several photons on a mode read by an
+        # interleaved detector (detection rows with entries 1/9, 1/27, ...)
+        hm = {k: v for k, v in hs}
+        comps = [[rng.randint(0, m - 2), {"t": "W", "k": rng.choice([1000, 3000, 3000])}]
+                 for _ in range(rng.randint(1, 2))]
+        cfg["circ"] = {"m": m, "comps": comps}
+        cfg["dets"] = [("pnr" if hm.get(k, 0) > 2 else ["ppnr", rng.choice([2, 3, 3]), None]) if rng.random() < 0.8
+                       else dets[k] for k in range(m)]
+        if dets_all_pnr(cfg["dets"]):
+            cfg["dets"] = dets
+        if cfg["kind"] == "sim":
+            # one member of indistinguishable photons bunched on the modes the weak coupler acts on
+            off = comps[0][0]
+            st = [[] for _ in range(m)]
+            for _ in range(rng.randint(2, 3)):
+                st[off + rng.randint(0, 1)].append(-1)
+            for k, v in hm.items():
+                while len(st[k]) < v:
+                    st[k].append(-1)
+            key = json.dumps(st)
+            if all(json.dumps(mb["state"]) != key for mb in cfg["members"]):
+                big = max(cfg["members"], key=lambda mb: mb["w"])
+                big["state"] = st
+    return cfg
 
 
 # ------------------------------------------------------------------------------------------------
@@ -1864,7 +1968,12 @@ REQUIRED = ["mask-path", "no-heralds", "herald-in-the-middle", "adjacent-heralds
             # probability trimming at a non-zero precision
             "trim-case", "trim-default-precision", "trim-processor", "trim-member-dropped", "trim-tensor-pruned",
             "trim-tensor-pruned-under-mask", "trim-bites-with-retained-mass", "trim-changes-the-answer",
-            "trim-changes-the-answer-at-default-precision",
+            "trim-changes-the-answer-at-default-precision", "trim-apriori-bound-checked",
+            # trimming with a detector that is not PNR (simulate_detectors' per-state threshold)
+            "trim-det-case", "trim-det-default-precision", "trim-det-processor", "trim-det-member-dropped",
+            "trim-det-tensor-pruned", "trim-det-stage-bites", "trim-det-stage-bites-at-default-precision",
+            "trim-det-all-threshold", "trim-det-physical-perf-changes", "trim-det-bites-with-retained-mass",
+            "trim-det-changes-the-answer", "trim-det-changes-the-answer-at-default-precision",
             # sessions on one object
             "session-sim", "session-proc", "session-later-query-retains", "session-mask-mode-switched-off",
             "session-other-heralds-under-mask", "session-vacuum-after-masked-query", "session-postselection-cleared",
@@ -1911,23 +2020,28 @@ def run(chk: core.Check):
     chk.real = RealWorker(chk.seed)
     try:
         rng = chk.rng
+        only = os.environ.get("VERIF_C04_ONLY")                 # (development switch) run the named batches only
+        on = (lambda name: only is None or name in only.split(","))
         for cfg in ([] if os.environ.get("VERIF_C04_NO_CORPUS") else load_corpus()):   # (development switch)
             handle(chk, cfg, do_shrink=False)
         n_sim = chk.pick(560, 4800)
         n_sup = chk.pick(50, 450)
         n_proc = chk.pick(300, 2200)
         max_m = 5
-        for _ in range(n_sim):
+        for _ in range(n_sim if on("sim") else 0):
             handle(chk, gen_sim_config(rng, max_m))
-        for _ in range(n_sup):
+        for _ in range(n_sup if on("sup") else 0):
             handle(chk, gen_sim_config(rng, 4, superposed=True))
-        for _ in range(n_proc):
+        for _ in range(n_proc if on("proc") else 0):
             handle(chk, gen_proc_config(rng, max_m))
-        for _ in range(chk.pick(260, 2000)):
+        for _ in range(chk.pick(260, 2000) if on("trim") else 0):
             handle(chk, gen_trim_config(rng, max_m))
-        for _ in range(chk.pick(180, 1400)):
+        for _ in range(chk.pick(180, 1400) if on("session") else 0):
             handle(chk, gen_session_config(rng, max_m))
-        malformed(chk, rng, chk.pick(30, 300))
+        for _ in range(chk.pick(160, 1200) if on("trimdet") else 0):
+            handle(chk, gen_trim_det_config(rng, max_m))
+        if on("malformed"):
+            malformed(chk, rng, chk.pick(30, 300))
         chk.extra["real_code_worker_crashes"] = chk.real.crashes
     finally:
         chk.real.close()
